@@ -47,6 +47,10 @@ def run(tier, seed, replay=None):
             rep.cov["samples"] = [w["name"] for w in worlds]
             return rep.finish()
         full = tier != "quick"
+        # design level: detection and the byte ranges of sector reads agree with a second, integer definition (3 366 cases)
+        res = common.run_tlc(specdir, "MC_CdSector.tla", "MC_CdSector.cfg", workers=4, timeout=600, stack="512m")
+        common.tlc_must_pass(res, "MC_CdSector")
+        rep.add_tlc(res)
         worlds = []
         combos = [(ss, tag) for ss in SECTOR_SIZES for tag in ("CD001", "PSX")]
         size_classes = [("min", 2 * MIB, False), ("mid", 2 * MIB + 70001, False)]
